@@ -368,7 +368,7 @@ func heldHandleScenario(cfg fatCfg, oracle string, depth int) *fatScen {
 	pre := []fsOp{W("F.BIN", "0", "6c"), W("other-long-name.bin", "0", "2c+1")}
 	l := []fsOp{{Kind: "hold", Path: "F.BIN"}, {Kind: "heldwrite", Off: "0", Len: "7"}, {Kind: "heldwrite", Off: "eof", Len: "c+1"}, {Kind: "heldwrite", Off: "past", Len: "1"}, {Kind: "heldread", Off: "0", Len: "2c+1"},
 		{Kind: "trunc", Path: "F.BIN"}, W("F.BIN", "0", "1"), W("F.BIN", "eof", "2c+1"), {Kind: "remove", Path: "F.BIN"}, {Kind: "rename", Path: "other-long-name.bin", Path2: "F.BIN"},
-		{Kind: "release"}, {Kind: "reopen"}}
+		W("new-while-held.bin", "0", "c+1"), {Kind: "release"}, {Kind: "reopen"}}
 	return &fatScen{Name: "heldhandle", Cfg: cfg, Prefix: pre, Letters: l, Depth: depth, Oracle: oracle}
 }
 
